@@ -245,7 +245,7 @@ impl Driver {
                 let (g2, _) = self.sh.cv.wait_timeout(g, Duration::from_millis(200)).unwrap();
                 g = g2;
             }
-            if t0.elapsed() > Duration::from_secs(20) {
+            if t0.elapsed() > Duration::from_secs(60) {
                 return WState::Stuck;
             }
         }
